@@ -597,4 +597,106 @@ theorem rebuild (c : Color) (hw : c.wf = true) (hc : hslConsistent c) :
       simp only []
       first | exact fuzzyRound_of_isInt (isInt_natCast _)
 
+/-- the same statement at the level of colours: `from_hsla(as_hsla(c))` is the same colour as `c` -/
+theorem C15_rgb_hsl_rgb_roundtrip_color (c : Color) (hw : c.wf = true) (hc : hslConsistent c) :
+    sameColor (fromHsla c.asHsla.1 c.asHsla.2.1 c.asHsla.2.2.1 c.asHsla.2.2.2) c = true := by
+  have ⟨a, b, d, e⟩ := rebuild c hw hc
+  exact sameColor_of_chan hw a b d e
+
+example : hslConsistent (newRgba 18 52 87 1 .infer) := trivial
+
+/-! ## 9. lighten/darken/saturate/desaturate/adjust-hue by 0, complement twice -/
+
+theorem hslFns_eq (c : Color) (x : Rat) :
+    lighten c x = fromHsla c.asHsla.1 c.asHsla.2.1 (c.asHsla.2.2.1 + x) c.asHsla.2.2.2 ∧
+    darken c x = fromHsla c.asHsla.1 c.asHsla.2.1 (c.asHsla.2.2.1 - x) c.asHsla.2.2.2 ∧
+    saturate c x = fromHsla c.asHsla.1 (clamp (c.asHsla.2.1 + x) 0 1) c.asHsla.2.2.1 c.asHsla.2.2.2 ∧
+    desaturate c x = fromHsla c.asHsla.1 (clamp (c.asHsla.2.1 - x) 0 1) c.asHsla.2.2.1 c.asHsla.2.2.2 ∧
+    adjustHue c x = fromHsla (c.asHsla.1 + x) c.asHsla.2.1 c.asHsla.2.2.1 c.asHsla.2.2.2 ∧
+    complement c = fromHsla (c.asHsla.1 + 180) c.asHsla.2.1 c.asHsla.2.2.1 c.asHsla.2.2.2 := by
+  unfold lighten darken saturate desaturate adjustHue complement
+  generalize c.asHsla = t
+  obtain ⟨h, s, l, a⟩ := t
+  exact ⟨rfl, rfl, rfl, rfl, rfl, rfl⟩
+
+theorem hslToRgbExact_clamp_sat (h s l : Rat) : hslToRgbExact h (clamp s 0 1) l = hslToRgbExact h s l := by
+  have cs : clamp (clamp s 0 1) 0 1 = clamp s 0 1 := by
+    have ⟨a, b⟩ := clamp_bounds s 0 1 (by decide +kernel); exact clamp_id a b
+  simp only [hslToRgbExact, cs]
+
+theorem fromHsla_chan_congr {h h' s s' l l' a : Rat}
+    (e : hslToRgbExact (sassMod h 360) s l = hslToRgbExact (sassMod h' 360) s' l') :
+    (fromHsla h s l a).r = (fromHsla h' s' l' a).r ∧ (fromHsla h s l a).g = (fromHsla h' s' l' a).g ∧
+    (fromHsla h s l a).b = (fromHsla h' s' l' a).b ∧ (fromHsla h s l a).a = (fromHsla h' s' l' a).a := by
+  have ⟨f1, f2, f3, f4, _⟩ := fromHsla_fields h s l a
+  have ⟨g1, g2, g3, g4, _⟩ := fromHsla_fields h' s' l' a
+  rw [f1, f2, f3, f4, g1, g2, g3, g4, e]
+  exact ⟨rfl, rfl, rfl, rfl⟩
+
+/-- lighten, darken, saturate, desaturate and adjust-hue by 0 return the same colour. -/
+theorem C15_hsl_functions_by_zero (c : Color) (hw : c.wf = true) (hc : hslConsistent c) :
+    sameColor (lighten c 0) c = true ∧ sameColor (darken c 0) c = true ∧ sameColor (saturate c 0) c = true ∧
+    sameColor (desaturate c 0) c = true ∧ sameColor (adjustHue c 0) c = true := by
+  have ⟨e1, e2, e3, e4, e5, _⟩ := hslFns_eq c 0
+  have ⟨a, b, d, e⟩ := rebuild c hw hc
+  have z1 : ∀ x : Rat, x + 0 = x := fun x => by grind
+  have z2 : ∀ x : Rat, x - 0 = x := fun x => by grind
+  rw [e1, e2, e3, e4, e5]
+  simp only [z1, z2]
+  have sat := fromHsla_chan_congr (h := c.asHsla.1) (h' := c.asHsla.1) (l := c.asHsla.2.2.1) (l' := c.asHsla.2.2.1)
+    (a := c.asHsla.2.2.2) (hslToRgbExact_clamp_sat (sassMod c.asHsla.1 360) c.asHsla.2.1 c.asHsla.2.2.1)
+  obtain ⟨s1, s2, s3, s4⟩ := sat
+  exact ⟨sameColor_of_chan hw a b d e, sameColor_of_chan hw a b d e,
+    sameColor_of_chan hw (s1.trans a) (s2.trans b) (s3.trans d) (s4.trans e),
+    sameColor_of_chan hw (s1.trans a) (s2.trans b) (s3.trans d) (s4.trans e),
+    sameColor_of_chan hw a b d e⟩
+
+example : sameColor (lighten (newRgba 18 52 87 1 .infer) 0) (newRgba 18 52 87 1 .infer) = true := by decide +kernel
+
+theorem sassMod_add_int (h : Rat) (j : Int) : sassMod (h + 360 * (j : Rat)) 360 = sassMod h 360 := by
+  unfold sassMod
+  have e : (h + 360 * (j : Rat)) / 360 = h / 360 + (j : Rat) := by grind
+  rw [e, Rat.floor_add_intCast]
+  simp [Rat.intCast_add]
+  grind
+
+theorem sassMod_shift (h : Rat) : sassMod (sassMod (h + 180) 360 + 180) 360 = sassMod h 360 := by
+  have e : sassMod (h + 180) 360 + 180 = h + 360 * (((1 - ((h + 180) / 360).floor : Int)) : Rat) := by
+    unfold sassMod
+    simp [Rat.intCast_sub]
+    grind
+  rw [e, sassMod_add_int]
+
+theorem asHsla_of_some {c : Color} {h : Hsl} (e : c.hsl = some h) : c.asHsla = (h.hue, h.sat, h.lum, c.alpha) := by
+  unfold Color.asHsla; rw [e]
+
+/-- complement(complement($c)) is `$c`: the intermediate colour keeps its exact HSL, so the two
+    half-turns cancel and what remains is the rgb → hsl → rgb round trip. -/
+theorem C15_complement_complement (c : Color) (hw : c.wf = true) (hc : hslConsistent c) :
+    sameColor (complement (complement c)) c = true := by
+  have ⟨a0, a1⟩ := wf_alpha hw
+  have hal := asHsla_alpha c
+  have ⟨_, _, _, _, _, e6⟩ := hslFns_eq c 0
+  have ⟨_, _, _, f4, f5⟩ := fromHsla_fields (c.asHsla.1 + 180) c.asHsla.2.1 c.asHsla.2.2.1 c.asHsla.2.2.2
+  -- as_hsla of the complement is its stored HSL
+  have das : (complement c).asHsla = (sassMod (c.asHsla.1 + 180) 360, clamp c.asHsla.2.1 0 1, clamp c.asHsla.2.2.1 0 1, c.alpha) := by
+    have al : (complement c).alpha = c.alpha := by
+      rw [e6]; rw [alpha_of_le_one (by rw [f4, hal]; exact a1), f4, hal]
+    have hs : (complement c).hsl = some ⟨sassMod (c.asHsla.1 + 180) 360, clamp c.asHsla.2.1 0 1, clamp c.asHsla.2.2.1 0 1⟩ := by
+      rw [e6]; exact f5
+    rw [asHsla_of_some hs, al]
+  have ⟨_, _, _, _, _, e6'⟩ := hslFns_eq (complement c) 0
+  rw [e6', das]
+  simp only []
+  have ⟨a, b, d, e⟩ := rebuild c hw hc
+  have cg := fromHsla_chan_congr (h := sassMod (c.asHsla.1 + 180) 360 + 180) (h' := c.asHsla.1)
+    (s := clamp c.asHsla.2.1 0 1) (s' := c.asHsla.2.1) (l := clamp c.asHsla.2.2.1 0 1) (l' := c.asHsla.2.2.1)
+    (a := c.alpha) (by rw [sassMod_shift, hslToRgbExact_clamp])
+  obtain ⟨s1, s2, s3, s4⟩ := cg
+  rw [hal] at a b d e
+  exact sameColor_of_chan hw (s1.trans a) (s2.trans b) (s3.trans d) (s4.trans e)
+
+example : sameColor (complement (complement (newRgba 18 52 87 1 .infer))) (newRgba 18 52 87 1 .infer) = true := by
+  decide +kernel
+
 end Grass.Color
